@@ -42,6 +42,15 @@ class Obj(object):
         return "<%s %s>" % (self.cls, self.tag or "")
 
 
+class Closure(object):
+    def __init__(self, node, env):
+        self.node = node
+        self.env = env
+
+    def __repr__(self):
+        return "<closure %s>" % self.node.name
+
+
 class NoneV(object):
     def __repr__(self):
         return "None"
@@ -259,7 +268,12 @@ class FormulaEval(object):
         return out
 
     def _stmt0(self, s, st):
-        if isinstance(s, (ast.Pass, ast.Import, ast.ImportFrom, ast.Global, ast.Nonlocal, ast.FunctionDef)):
+        if isinstance(s, ast.FunctionDef):
+            # nested helper: a closure over the current bindings
+            s2 = st.fork()
+            s2.env[s.name] = Closure(s, s2.env)
+            return [("fall", None, s2, None)]
+        if isinstance(s, (ast.Pass, ast.Import, ast.ImportFrom, ast.Global, ast.Nonlocal)):
             return [("fall", None, st, None)]
         if isinstance(s, ast.Expr):
             if isinstance(s.value, ast.Constant):
@@ -326,6 +340,30 @@ class FormulaEval(object):
             for s2 in self._assume(s.test, False, st):
                 out.extend(self._block(s.orelse, s2) if s.orelse else [("fall", None, s2, None)])
             return out
+        if isinstance(s, ast.For) and isinstance(s.iter, (ast.Tuple, ast.List)) and len(s.iter.elts) <= 8 and not s.orelse:
+            # a loop over a short literal display is executed element by element
+            live = [st]
+            done = []
+            for elt in s.iter.elts:
+                nxt = []
+                for cur in live:
+                    for v, s2 in self._expr(elt, cur):
+                        if isinstance(v, _Raised):
+                            done.append(("return", v, s2, s))
+                            continue
+                        s3 = s2.fork()
+                        self._store(s.target, v, s3)
+                        for kind, val, s4, node in self._block(s.body, s3):
+                            if kind in ("fall", "continue"):
+                                nxt.append(s4)
+                            elif kind == "break":
+                                done.append(("fall", None, s4, None))
+                            else:
+                                done.append((kind, val, s4, node))
+                live = nxt
+                if len(live) + len(done) > self.MAX_PATHS:
+                    raise AnalysisError("formula evaluator: more than %d paths in an unrolled loop" % self.MAX_PATHS)
+            return done + [("fall", None, x, None) for x in live]
         if isinstance(s, (ast.For, ast.While, ast.Try, ast.With)):
             # havoc: everything assigned inside becomes unknown
             s2 = st.fork()
@@ -733,6 +771,8 @@ class FormulaEval(object):
             return out
         if isinstance(fn, ast.Name):
             v = st.env.get(fn.id)
+            if isinstance(v, Closure):
+                return self._call_closure(v, args, kw, st)
             if v is None:
                 v = self._global(fn.id, st)
             if isinstance(v, Obj) and v.cls == "$func":
@@ -755,6 +795,29 @@ class FormulaEval(object):
         if name == "mul_add" and len(args) == 3 and isinstance(args[0], Rat) and isinstance(args[1], LinPt) and isinstance(args[2], Rat):
             return P.smul(args[0]) + args[1].smul(args[2])
         return Unknown(ast.unparse(e)[:60])
+
+    def _call_closure(self, c, args, kw, st):
+        if self.depth >= self.MAX_DEPTH:
+            return [(Unknown("call depth"), st)]
+        a = c.node.args
+        names = [x.arg for x in a.posonlyargs + a.args]
+        env = dict(c.env)
+        for i, nm in enumerate(names):
+            env[nm] = args[i] if i < len(args) else kw.get(nm, Unknown("missing argument " + nm))
+        env["$func"] = st.env.get("$func")
+        inner = _St(env, st.conds, {k: dict(v) for k, v in st.heap.items()})
+        self.depth += 1
+        try:
+            out = []
+            for kind, val, s2, node in self._block(c.node.body, inner):
+                s3 = _St(st.env, s2.conds, s2.heap)
+                if kind == "raise":
+                    out.append((_Raised(val, node), s3))
+                else:
+                    out.append((val if kind == "return" else NONE, s3))
+            return out
+        finally:
+            self.depth -= 1
 
     def _call_resolved(self, e, r, args, kw, st):
         if r and r[0] == "func" and self._may_inline(r[1]):
